@@ -250,6 +250,10 @@ func Hint(cond bool) {}
 // and in the native replay, so an ideal counterexample exceeds what rounding can explain.
 func NearDec(a, b, tol math.LegacyDec) bool { return a.Sub(b).Abs().LTE(tol) }
 
+// EqIdeal: a == b exactly over the reals in ideal-Q mode (used for cut lemmas that hold
+// without any truncation); natively, and in the other modes, equality up to tol.
+func EqIdeal(a, b, tol math.LegacyDec) bool { return a.Sub(b).Abs().LTE(tol) }
+
 // LeqDec: a <= b (ideal: exact; native: up to tol).
 func LeqDec(a, b, tol math.LegacyDec) bool { return a.LTE(b.Add(tol)) }
 
